@@ -5,6 +5,7 @@ INVARIANT ChrootComplete
 INVARIANT FullyDropped
 INVARIANT RootKept
 INVARIANT FailAborts
+INVARIANT GarbledAborts
 INVARIANT ServingIsBound
 PROPERTY StepsInOrder
 CHECK_DEADLOCK FALSE
